@@ -17,7 +17,7 @@ From Coq Require Import String.
 From Coq Require Import List ZArith NArith Bool.
 From Verif Require Import common.Sexp sem.JV sem.Syntax sem.Natives sem.Sem sem.BuiltinLaws sem.BuiltinCalls
   sem.PathSound sem.StreamWfProofs sem.StreamObs sem.StreamObsProofs sem.PathsObsProofs sem.StreamLaws sem.StreamLawsProofs sem.StreamGen sem.StreamGenProofs sem.PathsRoot sem.PathsRootProofs
-  gen.GenBuiltins.
+  sem.FromstreamLaws sem.FromstreamProofs sem.FromstreamFold sem.FromstreamFoldProofs gen.GenBuiltins.
 Import ListNotations.
 
 Theorem C13d_paths : forall bs, stream_pins bs -> forall m rho v ps k, undefined_in rho "paths" 0 ->
@@ -112,6 +112,55 @@ Theorem C13d_paths_observe : forall bs, stream_pins bs -> recurse_pins bs -> for
 Proof. exact paths_observe. Qed.
 Print Assumptions C13d_paths_observe.
 
+(* FROMSTREAM (pinned text: fromstream_pins).  The call law, for ANY filter argument f, input, path state and consumer:
+   one unit of budget, a cell holding null (scoped as every foreach cell), then f run on the input (one more unit: f is a
+   filter argument) with the consumer [fs_cont]: read the cell, run the update on its content with $pv bound to the
+   output of f, store the result, run the extraction on it for the consumer. *)
+Theorem C13d_fromstream_call : forall bs, fromstream_pins bs -> forall n farg v ps (k : K),
+  eval_q bs (21 + n) [] (q_call (codes "fromstream") [farg]) v ps k =
+  (tick ;; with_cell (scoped_ids ps) (plain VNull)
+             (fun c => tick ;; eval_q bs (13 + n) [] farg v ps (fs_cont bs n farg c k))
+             (fun _ => ret tt)).
+Proof. exact fromstream_call_sem. Qed.
+Print Assumptions C13d_fromstream_call.
+
+(* ONE STEP of fromstream as a transformer of the accumulator: from a state whose cell c holds the (plain) accumulator
+   acc, on a two-element event [p, x] the new accumulator is [fs_step2 acc p x] — `if .e then null end`, then
+   setpath(["v"] + p; x), then setpath(["e"]; length of p == 0) — and on a one-element (closing) event [p] it is
+   [fs_step1 acc p] — `if .e then null end`, then setpath(["e"]; length of p == 1); an error of the index / setpath
+   functions is the error of the run; the new accumulator u is stored in the cell and [fs_emit k u] hands u.v to the
+   consumer when u.e is truthy, nothing otherwise.  No step budget, no ids.  (FromstreamLaws.v.) *)
+Theorem C13d_fromstream_step : forall bs, fromstream_pins bs -> forall n farg c (k : K) p acc s,
+  cell_lookup (cells s) c = Some (plain acc) ->
+  (forall x, fs_cont bs n farg c k (plain (VArr [VArr p; x])) None s =
+             lift (fs_step2 acc p x) (fun u => set_cell c (plain u) ;; fs_emit k u) s) /\
+  fs_cont bs n farg c k (plain (VArr [VArr p])) None s =
+  lift (fs_step1 acc p) (fun u => set_cell c (plain u) ;; fs_emit k u) s.
+Proof. exact fromstream_step_sem. Qed.
+Print Assumptions C13d_fromstream_step.
+
+(* FROMSTREAM(TOSTREAM) OBSERVED = THE PURE FOLD: on a well-formed value v (fuel 28 + n, n >= 7 * vsize v; budget >=
+   vsize v + 3; cap above vsize v), whenever the fold [fs_fold] of fromstream's steps (FromstreamFold.v: fs_step2 /
+   fs_step1 on the accumulator, [fs_out] = what `if .e then .v else empty end` hands over) over the list [events v]
+   starting from null succeeds with outputs os, the observation of fromstream(tostream) on v is (os, EndNormal).  The
+   evaluator is gone from the statement: what remains for "fromstream(tostream) = ." is the value-level equation
+   fs_fold null (events v) = Some (_, [v]) (C13d_fromstream_tostream_full below; computed for examples). *)
+Theorem C13d_fromstream_tostream_fold : forall bs, stream_pins bs -> fromstream_pins bs ->
+  forall n v capn rs ins a' os, jv_wf v -> (7 * vsize v <= n)%nat ->
+  fs_fold VNull (events v) = Some (a', os) ->
+  (N.of_nat (vsize v + 3) <= step_budget)%N -> (vsize v < capn)%nat ->
+  observe bs (28 + n) capn rs ins q_fs_ts v = (os, EndNormal).
+Proof. exact fromstream_tostream_fold. Qed.
+Print Assumptions C13d_fromstream_tostream_fold.
+
+(* the full statement (NOT proved): with the value-level equation for every well-formed value without an array at
+   setpath's index limit, the theorem above gives fromstream(tostream) = . *)
+Definition C13d_fromstream_tostream_full : Prop :=
+  forall v, jv_wf v -> exists a', fs_fold VNull (events v) = Some (a', [v]).
+
+Example C13d_fromstream_pins : fromstream_pins builtin_defs.
+Proof. repeat split; reflexivity. Qed.
+
 Example C13d_recurse_pins : recurse_pins builtin_defs.
 Proof. split; reflexivity. Qed.
 
@@ -184,3 +233,25 @@ Example C13d_ex_kids_paths :
   kids_paths d_val = [[vstr "a"]; [vstr "a"; VInt 0]; [vstr "a"; VInt 1]; [vstr "a"; VInt 1; vstr "b"]; [vstr "c"]] /\
   observe builtin_defs (27 + 7 * vsize d_val) 50 false [] (q_call (codes "paths") []) d_val = (map VArr (kids_paths d_val), EndNormal).
 Proof. vm_compute. repeat split. Qed.
+
+(* TESTS on the model (not theorems): the steps of fromstream on the events of {"a":[1]}: after the leaf event
+   [["a",0],1] the accumulator is {"e":false,"v":{"a":[1]}}, after the closing events [["a",0]] and [["a"]] e is true;
+   and fromstream(tostream) observed on d_val, on a scalar and on the empty containers gives back the value *)
+Example C13d_ex_fromstream :
+  let a1 := fs_step2 VNull [vstr "a"; VInt 0] (VInt 1) in
+  let fsts := q_call (codes "fromstream") [q_call (codes "tostream") []] in
+  a1 = NOk (VObj [(codes "e", VFalse); (codes "v", VObj [(codes "a", VArr [VInt 1])])]) /\
+  nbind a1 (fun a => fs_step1 a [vstr "a"]) = NOk (VObj [(codes "e", VTrue); (codes "v", VObj [(codes "a", VArr [VInt 1])])]) /\
+  observe builtin_defs 120 50 false [] fsts d_val = ([d_val], EndNormal) /\
+  observe builtin_defs 120 50 false [] fsts (VInt 7) = ([VInt 7], EndNormal) /\
+  observe builtin_defs 120 50 false [] fsts (VArr []) = ([VArr []], EndNormal) /\
+  observe builtin_defs 120 50 false [] fsts (VObj []) = ([VObj []], EndNormal).
+Proof. vm_compute. repeat split. Qed.
+
+(* the value-level equation on examples: the fold over the events of d_val, of a scalar, of [] and {} emits the value *)
+Example C13d_ex_fs_fold :
+  (exists a', fs_fold VNull (events d_val) = Some (a', [d_val])) /\
+  (exists a', fs_fold VNull (events (VInt 7)) = Some (a', [VInt 7])) /\
+  (exists a', fs_fold VNull (events (VArr [])) = Some (a', [VArr []])) /\
+  (exists a', fs_fold VNull (events (VObj [])) = Some (a', [VObj []])).
+Proof. repeat split; eexists; vm_compute; reflexivity. Qed.
